@@ -79,9 +79,14 @@ func (c *Connack) Len() int {
 // bytes decoded, and whether there have been any errors during the process.
 func (c *Connack) Decode(src []byte) (int, error) {
 	// decode header
-	total, _, _, err := decodeHeader(src, CONNACK)
+	total, _, rl, err := decodeHeader(src, CONNACK)
 	if err != nil {
 		return total, err
+	}
+
+	// check remaining length
+	if rl != 2 {
+		return total, makeError(CONNACK, "expected remaining length to be 2")
 	}
 
 	// read connack flags
